@@ -112,6 +112,8 @@ func (r *DailyRotateRule) OutdatedFiles() []string {
 		return nil
 	}
 
+	files = excludeFile(files, r.filename)
+
 	var buf strings.Builder
 	boundary := time.Now().Add(-time.Hour * time.Duration(hoursPerDay*r.days)).Format(dateFormat)
 	fmt.Fprintf(&buf, "%s%s%s", r.filename, r.delimiter, boundary)
@@ -183,6 +185,7 @@ func (r *SizeLimitRotateRule) OutdatedFiles() []string {
 		return nil
 	}
 
+	files = excludeFile(files, r.filename)
 	sort.Strings(files)
 
 	outdated := make(map[string]lang.PlaceholderType)
@@ -220,6 +223,19 @@ func (r *SizeLimitRotateRule) OutdatedFiles() []string {
 // ShallRotate 检查文件是否应该被轮换。
 func (r *SizeLimitRotateRule) ShallRotate(size int64) bool {
 	return r.maxSize > 0 && r.maxSize < size
+}
+
+// excludeFile 从 files 中去掉当前日志文件 name：
+// 分隔符为空时，备份文件的通配模式也会匹配到当前日志文件，它绝不能被当作过期备份删除。
+func excludeFile(files []string, name string) []string {
+	name = filepath.Clean(name)
+	kept := files[:0]
+	for _, f := range files {
+		if filepath.Clean(f) != name {
+			kept = append(kept, f)
+		}
+	}
+	return kept
 }
 
 func (r *SizeLimitRotateRule) parseFilename() (prefix, ext string) {
